@@ -14,6 +14,7 @@ func registerIntrinsics(e *Engine) {
 	registerMath(e)
 	registerTime(e)
 	registerSDK(e)
+	registerStatic(e)
 }
 
 func tInt(v Value) *Term {
@@ -88,6 +89,18 @@ func registerRT(e *Engine) {
 	rt("I64", intIn("i64", IntTy{64, true}))
 	rt("U8", intIn("u8", IntTy{8, false}))
 	rt("U32", intIn("u32", IntTy{32, false}))
+	rt("Bytes", func(p *Path, a []Value) Value {
+		name := cStr(a[0], "rt input name")
+		n := p.concreteInt(a[1], "rt.Bytes length")
+		es := make([]Value, n)
+		for i := 0; i < n; i++ {
+			in := fmt.Sprintf("%s.%d", name, i)
+			t := IntVar(inName(in), bi(0), bi(255))
+			p.addInput(in, "u8", t)
+			es[i] = VInt{t}
+		}
+		return VSlice{Obj: p.newObj(&VArray{E: es}, "rt.Bytes:"+name), Len: n, Cap: n}
+	})
 	rt("Bool", func(p *Path, a []Value) Value {
 		name := cStr(a[0], "rt input name")
 		t := Var(inName(name), SBool)
